@@ -19,6 +19,8 @@ CFG = {
         "Leptos.Macro.C18_raw_parent_static",
         "Leptos.Macro.C18_raw_parent_macro",
         "Leptos.Macro.macro_denotes_top",
+        # static text after a closed raw-text sibling: siblings are printed independently
+        "Leptos.Macro.C18_inert_siblings_independent",
         # adding a dynamic part leaves the static parts alone (one-hole contexts)
         "Leptos.Macro.C18_static_parts_stable",
         "Leptos.Macro.C18_static_parts_stable_block",
